@@ -561,7 +561,7 @@ func (g *Gen) Markdown(lists bool) string {
 	add := func(s string) { sb = append(sb, s...) }
 	n := r.Range(2, 8)
 	for i := 0; i < n; i++ {
-		switch x := r.Intn(9); {
+		switch x := r.Intn(10); {
 		case x == 0:
 			add("# " + g.PlainText() + "\n\n")
 		case x == 1:
@@ -577,6 +577,13 @@ func (g *Gen) Markdown(lists bool) string {
 		case x == 6:
 			add("inline `code` ~~gone~~ [link](http://example.com) $x^2$\n\n")
 		case x == 7:
+			// reference-style links: a label may be defined in this source, or only used
+			lbl := r.Pick("ref1", "ref2", "doc")
+			add("see [" + lbl + "] and [" + lbl + "][]\n\n")
+			if r.Bool() {
+				add("[" + lbl + "]: http://example.com/" + g.PlainText() + "\n\n")
+			}
+		case x == 8:
 			add("---\n\n")
 		default:
 			add(g.Text() + " plain paragraph\nsoft break\n\n")
